@@ -66,6 +66,8 @@ pub enum ParseError {
     ComplexTupleStruct,
     #[error("multiple unnamed associated types are not currently supported")]
     MultipleUnnamedAssociatedTypes,
+    #[error("tuple structs and tuple variants without a field are not supported")]
+    EmptyTuple,
     #[error("the serde tag attribute is not supported for non-algebraic enums: {enum_ident}")]
     SerdeTagNotAllowed { enum_ident: String },
     #[error("the serde content attribute is not supported for non-algebraic enums: {enum_ident}")]
@@ -284,7 +286,9 @@ pub(crate) fn parse_struct(s: &ItemStruct, target_os: &[String]) -> Result<RustI
             if f.unnamed.len() > 1 {
                 return Err(ParseError::ComplexTupleStruct);
             }
-            let f = &f.unnamed[0];
+            let Some(f) = f.unnamed.first() else {
+                return Err(ParseError::EmptyTuple);
+            };
 
             let ty = if let Some(ty) = get_field_type_override(&f.attrs) {
                 ty.parse()?
@@ -442,7 +446,9 @@ fn parse_enum_variant(
                 return Err(ParseError::MultipleUnnamedAssociatedTypes);
             }
 
-            let first_field = associated_type.unnamed.first().unwrap();
+            let Some(first_field) = associated_type.unnamed.first() else {
+                return Err(ParseError::EmptyTuple);
+            };
 
             let ty = if let Some(ty) = get_field_type_override(&first_field.attrs) {
                 ty.parse()?
